@@ -4,7 +4,8 @@ requests never crash or wedge the server.
 spec/Ribbit.tla (grid + functional core + connection state machine) -> MC_Ribbit checks the state machine
 (safety invariants, independence, liveness under weak fairness of the server tasks only, no state
 constraint) and enumerates programs = database + configuration + client steps (binding G);
-drv_ribbit starts the real cascette-ribbit server per program (Server::new(..).run() on loopback ports) and
+drv_ribbit starts the real cascette-ribbit server per program (Server::new for loading, then tcp::start_server +
+http::start_server - the two tasks Server::run spawns - on loopback ports) and
 executes the steps with the project's own clients (RibbitClient v1/v2, TactClient) and raw sockets;
 T_Ribbit judges every event (binding T).
 """
@@ -52,8 +53,11 @@ def mc_cfg(ctx, name, family, kd=(), arch="task_per_conn", conns="{}", tier="qui
     return path
 
 
+_cfg_no = __import__("itertools").count()
+
+
 def t_cfg(ctx, kd):
-    path = ctx.path("t_ribbit.cfg")
+    path = ctx.path(f"t_ribbit_{next(_cfg_no)}.cfg")     # one file per call: families are judged concurrently
     open(path, "w").write("\n".join([
         "CONSTANTS", f"  KnownDeviations = {lib.tla_set(kd)}", '  Arch = "task_per_conn"', "  Conns = {}",
         "  DB = 0", "  CFG = 0", "  Reqs = {}", "INIT TInit", "NEXT TNext", "INVARIANT Done", "CHECK_DEADLOCK FALSE"]) + "\n")
